@@ -167,6 +167,31 @@ Definition remove_deletable_files (q : queue) (f : fsys) : rdf_out :=
   let '(f2, dlog) := prune_dirs (qdirs q) f1 in
   mkRdf f2 (rev flog) (rev dlog).
 
+(* ---- what remove_deletable_files leaves in Workflow.to_be_deleted ---------------------------- *)
+
+(* Workflow.to_be_deleted is an attribute of the Workflow object: it lives across the build phases of one director
+   (watch mode).  remove_deletable_files ends with `workflow.to_be_deleted.clear()`; whether anything is put back
+   after that is REGENERATED (rdf_requeues_failed).  The recognised variant puts back every path that reached
+   `_try_remove(path.remove)`, was not removed and still exists -- in this file system: a directory -- with its
+   queue value, and marks its parent directory (mark_dir_to_be_deleted, which consults the attached static trees). *)
+Definition rdf_leftovers (q : queue) (f : fsys) : list (str * option N) :=
+  let files := sort_desc (dedup (map fst (qfiles q))) in
+  flat_map (fun p =>
+    if rdf_decide q f p then
+      match fs_get f p, qfile_get q p with
+      | Some FDir, Some v => [(p, v)]
+      | _, _ => []
+      end
+    else []) files.
+
+Definition requeue (trees : list str) (l : list (str * option N)) : queue :=
+  fold_left (fun q e => mark_dir trees (qfile_set q (fst e) (snd e)) (dirname (fst e))) l empty_queue.
+
+Definition queue_after_removal_rq (rq : bool) (trees : list str) (q : queue) (f : fsys) : queue :=
+  if rq then requeue trees (rdf_leftovers q f) else empty_queue.
+
+Definition queue_after_removal := queue_after_removal_rq rdf_requeues_failed.
+
 (* ---- Builder.finalize ---------------------------------------------------------------------- *)
 
 Record fin_ctx := mkCtx {
@@ -202,7 +227,8 @@ Definition run_call (cl : cleanup_call) (s : fin_state) : fin_state :=
             (s_err s || dd_err o)
   | CRemoveFiles =>
       let r := remove_deletable_files (s_q s) (s_fs s) in
-      mkFin (s_g s) empty_queue (r_fs r) (s_files s ++ r_files r) (s_dirs s ++ r_dirs r) (s_err s)
+      mkFin (s_g s) (queue_after_removal (attached_tree_labels (s_g s)) (s_q s) (s_fs s))
+            (r_fs r) (s_files s ++ r_files r) (s_dirs s ++ r_dirs r) (s_err s)
   end.
 
 Definition run_calls (cls : list cleanup_call) (s : fin_state) : fin_state :=
@@ -215,6 +241,30 @@ Definition finalize (c : fin_ctx) (s : fin_state) : fin_state :=
   finalize_with finalize_guards finalize_cleanup_calls c s.
 
 Definition init_state (g : graph) (f : fsys) : fin_state := mkFin g empty_queue f [] [] false.
+
+(* ---- several build phases of one director ---------------------------------------------------- *)
+
+(* Between two phases anything may happen to the graph (plan edits, builds, static() adoptions) and to the tree (the
+   user, the steps); the only thing the cleanup of one phase hands to the next is what it left in to_be_deleted. *)
+Record phase := mkPhase { ph_ctx : fin_ctx; ph_g : graph; ph_fs : fsys }.
+
+Definition start_phase (q : queue) (ph : phase) : fin_state := mkFin (ph_g ph) q (ph_fs ph) [] [] false.
+Definition next_phase (s : fin_state) (ph : phase) : fin_state := finalize (ph_ctx ph) (start_phase (s_q s) ph).
+Definition run_phases (phs : list phase) : fin_state := fold_left next_phase phs (init_state (mkGraph [] []) []).
+
+(* finalize with the three cleanup calls spelled out and the requeueing flag as a parameter (proofs/CleanPhases.v
+   shows it equal to `finalize` for the regenerated call list and flag) *)
+Definition finalize_rq (rq : bool) (c : fin_ctx) (s : fin_state) : fin_state :=
+  if existsb (guard_fires c) finalize_guards then s
+  else
+    let '(g1, q1) := revert_optional (s_g s) (s_q s) in
+    let o := workflow_dd g1 in
+    let q2 := queue_deleted (attached_tree_labels g1) (dd_deleted o) q1 in
+    let r := remove_deletable_files q2 (s_fs s) in
+    mkFin (dd_g o) (queue_after_removal_rq rq (attached_tree_labels (dd_g o)) q2 (s_fs s))
+          (r_fs r) (s_files s ++ r_files r) (s_dirs s ++ r_dirs r) (s_err s || dd_err o).
+Definition next_phase_rq (rq : bool) (s : fin_state) (ph : phase) : fin_state :=
+  finalize_rq rq (ph_ctx ph) (start_phase (s_q s) ph).
 
 (* ---- stepup clean -------------------------------------------------------------------------- *)
 
